@@ -156,8 +156,9 @@ def run(argv):
                 continue
             for rep in range(reps):
                 a, b, c = draw(rng), draw(rng), draw(rng)
-                if rep == 0:
-                    a, b, c = 1e-10, -0.5, -5.0   # the classic fusion case first
+                fixed = [(1e-10, -0.5, -5.0), (1e-10, 0.0, 0.0), (2.5e-9, 0.5, 0.0), (2.5e-9, 0.0, 100.0), (3.0e-10, -0.0, -0.0)]
+                if rep < len(fixed):
+                    a, b, c = fixed[rep]          # the classic fusion case and every zero pattern first
                 r0.alpha, r0.beta, r0.gamma = a, b, c
                 case = {"fmt": fmt, "code": code, "first": first, "alpha": a, "beta": b, "gamma": c}
                 nontriv = any(x <= 0 for x in (a, b, c))
